@@ -481,6 +481,8 @@ def run(repo, chk):
            f"every operand is evaluated in the context of the whole expression, only the argument list of a call is 'incall' ({ctx_n} operand evaluations): "
            "`a > f() as r` focuses #value exactly like `f() as r` does at the root (= `a(f(!#value as r))`)" + (f" -- {ctx_bad}" if ctx_bad else ""))
     mf = repo.func("selector.make_focus")
+    from .shared import parse_is_stateless_obligations
+    parse_is_stateless_obligations(repo, chk, "R15.1", "two spellings of one selector compile to the same object whatever was compiled before (a memo keyed on the text with its whitespace collapsed would confuse `x='a  b'` with `x='a b'`)")
     from .shared import call_extension_obligations
     call_extension_obligations(repo, chk, "R15.4")      # `f(g(y)) > h > x` and `f(g(y), h(!x))` are one selector: `>` appends to the calls already in the parentheses
     chk.ob("R15.5", "selector.make_focus:!-is-with_focus", facts_of(mf).has("return element.with_focus()", exactly=[]) and len(returns_of(mf.node)) == 1, mf.where, "`!x` focuses x")
